@@ -646,7 +646,12 @@ func (p *Program) runEntry(ec EntryCfg, workers int, solverBin string, logDir st
 				for k, v := range pr.warnings {
 					res.Warnings[k] += v
 				}
-				res.Violations = append(res.Violations, pr.viol...)
+				for _, v := range pr.viol {
+					// keep every hard violation, but only a sample of the known-finding ones
+					if v.Known == "" || len(res.Violations) < 200 {
+						res.Violations = append(res.Violations, v)
+					}
+				}
 				switch pr.kind {
 				case endUnwind, endUnsupported, endUnknown, endDeadlock:
 					if len(res.Inconclusive) < 20 {
@@ -665,7 +670,7 @@ func (p *Program) runEntry(ec EntryCfg, workers int, solverBin string, logDir st
 						hard[v.Msg] = true
 					}
 				}
-				stop := res.Paths >= maxPaths || time.Now().After(deadline) || len(hard) >= 4 || len(res.Violations) >= 400
+				stop := res.Paths >= maxPaths || time.Now().After(deadline) || len(hard) >= 4
 				needSample := len(res.Samples) < wantSamples
 				rmu.Unlock()
 				_ = needSample
